@@ -153,8 +153,12 @@ def float_decode(n):
 def neighbour(v, rng):
     """the next double above / below"""
     w = math.nextafter(v, math.inf if rng.random() < 0.5 else -math.inf)
-    if w in (math.inf, -math.inf) or w == 0:
+    if w in (math.inf, -math.inf):
         w = math.nextafter(v, v / 2)
+    elif w == 0:
+        # away from zero: below +-5e-324 there is only +-0.0, and -0.0 is a number the model cannot hold (it is the
+        # grid number 0 there but "-0.0" in json.dumps; quick seed 2 after the junk-prefix fix)
+        w = math.nextafter(v, 2 * v)
     return w
 
 
@@ -928,6 +932,65 @@ def sums_exact(ws):
     return all(abs(w) <= 2 ** 20 and (isinstance(w, int) or on_grid(w)) for w in ws)
 
 
+def inexact_sums(kind, ops):
+    """does some call of this history (on a weighted object) add two weights whose Python sum is not the exact sum?
+    Walks the calls with their documented effect on the weight table only (repeated add_edge / add_edges entry / constructor
+    entry: +=; remove_node(keep_edges=True): the shrunken record meets an existing one: +=).  The model keeps weights as
+    exact numbers of quarters, the code computes int + float in binary64: such a sum is not what C07 is about, and every
+    intermediate object may be probed - so the generator must not produce one anywhere in a history."""
+    tab = {}
+
+    def add(k, w):
+        w = 1 if w is None else w
+        if k in tab:
+            if not sums_exact([tab[k], w]):
+                return True
+            tab[k] = tab[k] + w
+        else:
+            tab[k] = w
+        return False
+
+    def ck(k):
+        return canon_key(kind, canon_free(kind, k))
+
+    def rmnode(v, keep):
+        for k in [k for k in tab if v in key_nodes(kind, k)]:
+            w = tab.pop(k)
+            f = key_without(kind, k, v) if keep else None
+            if f is not None and len(key_nodes(kind, f)) > 0 and add(f, w):
+                return True
+        return False
+    for op in ops:
+        name = op[0]
+        if name == "ctor":
+            tab = {}
+            if op[4] is not None and op[5] is not None and any(add(ck(k), w) for k, w in zip(op[4], op[5])):
+                return True
+        elif name == "addedge":
+            if add(ck(op[1]), op[2]):
+                return True
+        elif name == "addedges":
+            if any(add(ck(k), w) for k, w in zip(op[1], op[2] if op[2] is not None else [None] * len(op[1]))):
+                return True
+        elif name == "setw":
+            if ck(op[1]) in tab:
+                tab[ck(op[1])] = op[2]
+        elif name == "rmedge":
+            tab.pop(ck(op[1]), None)
+        elif name == "rmedges":
+            for k in op[1]:
+                tab.pop(ck(k), None)
+        elif name == "rmnode":
+            if rmnode(op[1], op[2]):
+                return True
+        elif name == "rmnodes":
+            if any(rmnode(v, op[2]) for v in op[1]):
+                return True
+        elif name == "clear":
+            tab = {}
+    return False
+
+
 def can_split(w):
     """w = a + b computed exactly by Python's + (ints of any size; small floats on the 1/4 grid)"""
     return isinstance(w, int) or (on_grid(w) and abs(w) <= 64)
@@ -1263,13 +1326,24 @@ def gen_history(tgt, rng, fancy):
     if fancy and kind != "M" and rng.random() < 0.25:
         pre = []
         pool = tnodes + tgt["extra"][:2]
+        junk = {}
         for _ in range(rng.randint(1, 4)):
             if rng.random() < 0.4:
                 pre.append(["addnode", rng.choice(pool), gen_dict(rng)])
             else:
                 k = gen_key(kind, pool, rng)
                 if k is not None:
-                    pre.append(["addedge", perm_key(kind, k, rng), gen_weight(rng, weighted, kind), gen_dict(rng)])
+                    # a junk key drawn a second time adds its weights up, and a probe may look at the object before the
+                    # clear(): only where Python's + is exact (thorough seed 5: 0.75 + (2**63 - 1) is 2.0**63 in the code)
+                    pk, w = perm_key(kind, k, rng), gen_weight(rng, weighted, kind)
+                    for _ in range(6):
+                        if not weighted or sums_exact(junk.get(k, []) + [w]):
+                            break
+                        w = gen_weight(rng, weighted, kind)
+                    else:
+                        continue
+                    junk.setdefault(k, []).append(w)
+                    pre.append(["addedge", pk, w, gen_dict(rng)])
         pre.append(["clear"])
         pre.append(["sethm", final_hmeta(tgt)])
         ops = pre + ops
@@ -2288,6 +2362,11 @@ def gen_case(rng, kind):
     hists, used_all, probes = [], set(), {}
     for i in range(4):
         ops, used = gen_batched(tgt, rng) if i == 3 else gen_history(tgt, rng, fancy=(i > 0))
+        if tgt["weighted"] and inexact_sums(kind, ops):
+            # safety net behind the per-path care of the generator (expected never to fire; counted as uses:sum-guard):
+            # the plain history adds nothing up
+            ops, used = gen_history(tgt, rng, fancy=False)
+            used = used | {"sum-guard"}
         hists.append(ops)
         used_all |= used
         if ops and rng.random() < 0.5:
